@@ -212,11 +212,12 @@ def api_patterns():
         "same_text_two_flag_sets": [re.compile(r"^[a-z]+$"), re.compile(r"^[a-z]+$", re.I)],
         "same_text_two_flag_sets_reversed": [re.compile(r"^[a-z]+$", re.I), re.compile(r"^[a-z]+$")],
         "string_and_compiled": [r"^\d+$", re.compile(r"^[a-f]+$", re.I)],
-        "dotall_multiline": [re.compile(r"^a.b$", re.S), re.compile(r"^x$", re.M)],
+        # (all patterns are written with ^...$ and no key ends in a newline, so "match" means the same under re.match and re.fullmatch)
+        "dotall": [re.compile(r"^a.b$", re.S)],
     }
 
 
-API_KEYSETS = [["DEAD", "beef"], ["dead", "beef"], ["12", "7"], ["gr\u00f6\u00dfe", "\u0438\u043c\u044f"], ["abc", "XYZ"], ["abc", "xyz"], ["a\nb"], ["x\ny", "x"],
+API_KEYSETS = [["DEAD", "beef"], ["dead", "beef"], ["12", "7"], ["gr\u00f6\u00dfe", "\u0438\u043c\u044f"], ["abc", "XYZ"], ["abc", "xyz"], ["a\nb"], ["a\nb", "axb"],
                ["ABC"], ["12", "x"]]
 
 
